@@ -9,7 +9,7 @@ set_option linter.unusedVariables false
 set_option linter.unusedSimpArgs false
 
 namespace PyGql.Props.C08
-open PyGql.Exec
+open PyGql.AsyncExec
 
 /-! ### gather_futures -/
 
@@ -214,10 +214,10 @@ theorem gather_slots {α} (source : List (Slot α)) (val : Nat → α) (order : 
 example : ((GState.init [none, some (.ok 10), none, none]).run (okComps (fun i => 100 + i) [3, 0, 2])).outer
     = some (.ok [100, 10, 102, 103]) := by rfl
 
-/-- **always_terminates_partial.** For the `gather_futures` machine: once every pending entry has
+/-- **gather_terminates.** For the `gather_futures` machine: once every pending entry has
     completed (in any order, successfully), the aggregate is no longer pending and nothing blocked.
-    (Partial: the lift to whole executor trees is `AlwaysTerminatesFull` in Props/C08_exec.lean, not proved.) -/
-theorem always_terminates_partial {α} (source : List (Slot α)) (val : Nat → α) (order : List Nat)
+    (The lift to whole executor trees is `always_terminates` in Props/C08_exec.lean.) -/
+theorem gather_terminates {α} (source : List (Slot α)) (val : Nat → α) (order : List Nat)
     (hplain : ∀ (i : Nat) (e : Exc), source[i]? ≠ some (some (Except.error e)))
     (hnodup : order.Nodup) (hall : ∀ i : Nat, source[i]? = some none ↔ i ∈ order) (hne : order ≠ []) :
     (((GState.init source).run (okComps val order)).outer).isSome = true ∧
